@@ -78,6 +78,16 @@ def main(argv=None):
         for j in rj: j['deadline'] = rung_deadline
         with ctx.Pool(min(a.jobs, max(1, len(rj)))) as pool:
             rr = list(pool.imap_unordered(_run_job, rj))
+        # second wave: big jobs were only enumerated down to a decision depth; explore every cut prefix as its own job
+        sub = []
+        for r in rr:
+            for k, p in enumerate(getattr(r, 'cuts', []) or []):
+                j0 = next(j for j in rj if j['name'] == r.name)
+                sub.append(dict(j0, name=f"{r.name}#p{k}", split=('prefix', p), weight=1))
+        if sub:
+            rnd.shuffle(sub)
+            with ctx.Pool(min(a.jobs, len(sub))) as pool:
+                rr += list(pool.imap_unordered(_run_job, sub, chunksize=max(1, len(sub) // (a.jobs * 8))))
         results.extend(rr)
         if any(r.violations for r in rr): completed.append(rung); break      # a counterexample was found: no need to go deeper
         if all(not r.inconclusive for r in rr): completed.append(rung)
